@@ -1,10 +1,22 @@
 ------------------------------ MODULE PageCodec ------------------------------
-(* Page body decompression for the reference reader.                                       *)
-(*   0 UNCOMPRESSED: identity.                                                             *)
-(* Other codecs are added by instances that override Decompress (see PageCodecFull).       *)
-EXTENDS Naturals, Sequences
+(* Page body (de)compression for the reference reader / writer.                             *)
+(*   0 UNCOMPRESSED: identity                                                              *)
+(*   1 SNAPPY: raw Snappy block (Snappy.tla)                                                *)
+(*   7 LZ4_RAW: LZ4 block (Lz4.tla)                                                         *)
+(*   5 LZ4 (deprecated): readers in the field accept a raw LZ4 block under this id as well  *)
+(*     as the Hadoop framing; the reference reader takes the raw block (weakest reading).   *)
+(*   2 GZIP, 6 ZSTD: not transcribed into TLA+ (inflate / zstd internals are out of reach   *)
+(*     of the specification); page bodies of those codecs are not judged by the TLA+ reader. *)
+EXTENDS Naturals, Sequences, PageCodecFull
 CodecBad(why) == [ok |-> FALSE, why |-> why]
 Decompress(codec, body, ulen) ==
     IF codec = 0 THEN [ok |-> TRUE, v |-> body]
+    ELSE IF codec = 1 THEN (LET r == SnappyDecompress(body) IN IF r.ok THEN [ok |-> TRUE, v |-> r.v] ELSE CodecBad("snappy-body-invalid"))
+    ELSE IF codec \in {5, 7} THEN (LET r == Lz4Decompress(body, ulen) IN IF r.ok THEN [ok |-> TRUE, v |-> r.v] ELSE CodecBad("lz4-body-invalid"))
     ELSE CodecBad("codec-not-modelled")
+\* reference compressors (with copies) for the reference writer
+CompressRef(codec, body) ==
+    IF codec = 1 THEN SnappyCompress(body)
+    ELSE IF codec \in {5, 7} THEN Lz4Compress(body)
+    ELSE body
 =============================================================================
